@@ -13,4 +13,5 @@ ALL = ["reset-hard", "checkout-force", "checkout", "reset-merge", "reset-keep", 
 
 def run(ctx):
     ops = ['add', 'add-all', 'remove', 'move', 'clean', 'commit'] or ALL
-    repo_common.run_prop(ctx, "C28", ["one-path-all-kinds", "dir-file-conflict"], ["one-path-all-kinds", "dir-file-conflict", "two-paths"], ops, 900)
+    repo_common.run_prop(ctx, "C28", ["one-path-all-kinds", "dir-file-conflict"], ["one-path-all-kinds", "dir-file-conflict", "two-paths"], ops, 1200,
+                         quick_extra=[("two-paths", ["move"])])   # moves between two independent paths also in the quick tier
